@@ -3,7 +3,7 @@
    Model: Model/Split.v (EntryPart::split, split_to_parts, write_split_archive_writer after the
    D6 repair).  [merge] fuses adjacent stream chunks (FDAT/SDAT) of one type and drops empty ones:
    two chunk lists with equal [merge] differ only in where stream chunks are cut. *)
-From PNA Require Import Base Codec Split BaseFacts SplitFacts.
+From PNA Require Import Base Codec Split BaseFacts CodecFacts SplitFacts.
 Open Scope N_scope.
 
 (* -- library level: EntryPart::split, for all chunk lists and all max_bytes_len ------------- *)
@@ -85,6 +85,37 @@ Check C04_parts_wellformed : forall bodies lastb,
     exists b, f = ahed_chunk (N.of_nat i) :: b ++
                   (if Nat.eqb i (length bodies) then [aend_chunk] else [anxt_chunk; aend_chunk]).
 Print Assumptions C04_parts_wellformed.
+
+(* Reading the parts in sequence with the reader chain (Model/Split.v read_parts: entries closed by
+   FEND/SEND, open chunks carried into the next part, part numbers checked) finds exactly the
+   original raw entries, each up to where its stream chunks are cut.  Premises: the input is what
+   raw_entries() yields (entry_ok) and contains no ANXT/AEND chunk (the reader consumed them). *)
+Theorem C04_parts_read_back : forall max es parts,
+  write_split max es = Ok parts -> Forall entry_ok es -> clean (concat es) = true ->
+  exists es', read_parts parts = Ok es' /\ map merge es' = map merge es.
+Proof. exact parts_read_back. Qed.
+Check C04_parts_read_back : forall max es parts,
+  write_split max es = Ok parts -> Forall entry_ok es -> clean (concat es) = true ->
+  exists es', read_parts parts = Ok es' /\ map merge es' = map merge es.
+Print Assumptions C04_parts_read_back.
+Example C04_parts_read_back_premises :
+  exists parts es', write_split 91 d6_witness = Ok parts /\ read_parts parts = Ok es' /\
+                    es' <> d6_witness /\ map merge es' = map merge d6_witness.
+Proof. exact read_back_cut_example. Qed.
+
+(* finding F-C04-foreign-stream (known_findings.txt): equality "up to stream cuts" is observable
+   when a stream-typed chunk is foreign to its entry (SDAT inside FHED..FEND): the splitter cuts
+   it, the entry parser reports it as an extra chunk.  Names, contents, metadata are unaffected. *)
+Theorem C04_foreign_stream_chunk_recut_refuted :
+  exists parts es', write_split 71 foreign_witness = Ok parts /\ read_parts parts = Ok es' /\
+    map (filter (ty_is SDAT)) es' <> map (filter (ty_is SDAT)) foreign_witness /\
+    map merge es' = map merge foreign_witness.
+Proof. exact foreign_stream_chunk_recut_refuted. Qed.
+Check C04_foreign_stream_chunk_recut_refuted :
+  exists parts es', write_split 71 foreign_witness = Ok parts /\ read_parts parts = Ok es' /\
+    map (filter (ty_is SDAT)) es' <> map (filter (ty_is SDAT)) foreign_witness /\
+    map merge es' = map merge foreign_witness.
+Print Assumptions C04_foreign_stream_chunk_recut_refuted.
 
 (* -- too small a maximum is an error ------------------------------------------------------------- *)
 Theorem C04_below_minimum_rejected : forall max es, max < 52 -> write_split max es = Err InvalidInput.
